@@ -6,3 +6,8 @@ package client
 //@ func (*ovsdbClient).primaryDB
 //@ pure
 //@ ensures result == o.databases[o.primaryDBName]
+
+// waitForCacheConsistent returns with the cache read-locked on every path.
+//@ func waitForCacheConsistent
+//@ requires db != nil
+//@ lock_delta db.cacheMutex R 1
